@@ -47,6 +47,11 @@ structure Machine where
   /-- number of arguments a foreign function pops -/
   ffiArity : Nat → Nat → Option Nat
 
+def wrapVal : WrapType → Val → Val
+  | .Ok, v => .ok v
+  | .Err, v => .err v
+  | .Some, v => .some v
+
 def VM.next (s : VM) : StepRes := .running { s with pc := s.pc + 1 }
 def VM.push (s : VM) (v : Val) : VM := { s with stack := v :: s.stack }
 
@@ -244,7 +249,7 @@ def step (m : Machine) (s : VM) : StepRes :=
       | [] => .error .stackUnderflow s.log
       | _ :: _ => .error .invalidType s.log
     | .Wrap w => match s.stack with
-      | v :: st => VM.next { s with stack := (match w with | .Ok => Val.ok v | .Err => Val.err v | .Some => Val.some v) :: st }
+      | v :: st => VM.next { s with stack := wrapVal w v :: st }
       | [] => .error .stackUnderflow s.log
     | .Is w => match s.stack with
       | v :: st => VM.next { s with stack := .bool (isWrap w v) :: st }
